@@ -56,12 +56,16 @@ def verifyFrameType (rules : Nat) (ft : FrameType) : Bool :=
 def autoFrameType (rules : Nat) : Option FrameType :=
   if rulesForFp rules then some .fixed else if rulesForVp rules then some .variable else none
 
+/-- the frame type `pack` works with: the one passed, else the one determined from the rule -/
+def effectiveFt (ft : Option FrameType) (rules : Nat) : Option FrameType :=
+  match ft with
+  | some f => some f
+  | none => autoFrameType rules
+
 /-- `TransferFrameDataField.pack(truncated, frame_type)` -/
 def Tfdf.pack (t : Tfdf) (truncated : Bool) (ft : Option FrameType) : UPy Bytes := do
   let b0 ← liftPy (byteOfN ((32 * t.rules) ||| t.upid))
-  let ft' := match ft with
-    | some f => some f
-    | none => autoFrameType t.rules
+  let ft' := effectiveFt ft t.rules
   if shouldHaveFhp t.rules truncated ft' then
     match t.fhp with
     | none => throw (.uslp .fhpMissing)
@@ -179,8 +183,16 @@ def optSize : Option Nat → Nat
   | none => 0
   | some n => n
 
+def optSizeI (o : Option Nat) : Int := ((optSize o : Nat) : Int)
+
+/-- `header.op_ctrl_flag` where the decoder consults it (`not truncated and header.op_ctrl_flag`) -/
+def Header.hasOcf : Header → Bool
+  | .primary h => h.ocf
+  | .truncated _ => false
+
 /-- `TransferFrame.__get_tfdf_len(...)`: start from the frame length (header field + 1, or the
-    managed truncated length), subtract the header and every optional field that is present. -/
+    managed truncated length), subtract the header and every optional field that is present
+    (absent fields subtract nothing, written here as subtracting 0). -/
 def tfdfLen (ft : FrameType) (hdr : Header) (rawLen : Nat) (p : FrameProps) : UPy Int := do
   let hl : Int := (hdr.len : Int)
   let e0 : Int ←
@@ -195,59 +207,55 @@ def tfdfLen (ft : FrameType) (hdr : Header) (rawLen : Nat) (p : FrameProps) : UP
       | .variable => pure ((p.lenParam : Int) - hl)
       | .fixed => throw (.py .attr)               -- `properties.truncated_frame_len` (unreachable)
     | .variable, .primary h => pure ((h.frameLen : Int) + 1 - hl)
-  let e1 : Int := match p.fecf with
-    | some s => e0 - (s : Int)
-    | none => e0
-  let e2 : Int := match hdr with
-    | .primary h => if h.ocf then e1 - 4 else e1
-    | .truncated _ => e1
-  let e3 : Int := match p.insertZone with
-    | some s => e2 - (s : Int)
-    | none => e2
-  pure e3
+  pure (e0 - optSizeI p.fecf - (if hdr.hasOcf then 4 else 0) - optSizeI p.insertZone)
 
-/-- `TransferFrame.unpack(raw_frame, frame_type, frame_properties)` -/
-def Frame.unpack (raw : Bytes) (ft : FrameType) (p : FrameProps) : UPy Frame := do
+/-- first part of `TransferFrame.unpack`: the guards on the buffer and the managed parameters,
+    `determine_header_type`, and the header decoder that applies -/
+def Frame.unpackHeader (raw : Bytes) (ft : FrameType) (p : FrameProps) : UPy Header := do
   if raw.length < 4 then throw (.uslp .invalidLen)
   if ft = .fixed then
     if p.kind ≠ .fixed then throw (.py .value)
     if raw.length < p.lenParam then throw (.uslp .invalidLen)
   let trunc ← headerIsTruncated raw
-  let hdr : Header ←
-    if trunc then do
-      if ft ≠ .variable then throw (.uslp .truncatedNotAllowed)
-      if p.kind ≠ .variable then throw (.py .value)
-      if raw.length < p.lenParam then throw (.uslp .invalidLen)
-      let h ← TruncatedHeader.unpack raw
-      pure (Header.truncated h)
-    else do
-      let h ← PrimaryHeader.unpack raw
-      pure (Header.primary h)
-  let hl := hdr.len
-  match hdr with
-  | .primary h =>
+  if trunc then do
+    if ft ≠ .variable then throw (.uslp .truncatedNotAllowed)
+    if p.kind ≠ .variable then throw (.py .value)
+    if raw.length < p.lenParam then throw (.uslp .invalidLen)
+    let h ← TruncatedHeader.unpack raw
+    pure (Header.truncated h)
+  else do
+    let h ← PrimaryHeader.unpack raw
+    pure (Header.primary h)
+
+/-- the two checks of the frame length field of a regular header against the buffer and the
+    managed fixed length -/
+def frameLenCheck (raw : Bytes) (ft : FrameType) (p : FrameProps) : Header → UPy Unit
+  | .primary h => do
     if raw.length < h.frameLen + 1 then throw (.uslp .invalidLen)
     if ft = .fixed ∧ h.frameLen + 1 ≠ p.lenParam then throw (.uslp .invalidLen)
   | .truncated _ => pure ()
+
+/-- second part of `TransferFrame.unpack`: data-field length, insert zone, data field, OCF, FECF -/
+def Frame.unpackBody (raw : Bytes) (ft : FrameType) (p : FrameProps) (hdr : Header) : UPy Frame := do
+  let hl := hdr.len
+  frameLenCheck raw ft p hdr
   let e ← tfdfLen ft hdr raw.length p
   if e ≤ 0 ∨ (hl : Int) + e > (raw.length : Int) then throw (.uslp .invalidLen)
   let n := e.toNat
-  let (iz, cur) ←
-    match p.insertZone with
-    | some s =>
-      if hl + s + n > raw.length then throw (.uslp .invalidLen)
-      pure (some (slice raw hl (hl + s)), hl + s)
-    | none => pure (none, hl)
+  let izs := optSize p.insertZone
+  if p.insertZone.isSome ∧ hl + izs + n > raw.length then throw (.uslp .invalidLen)
+  let iz := p.insertZone.map (fun s => slice raw hl (hl + s))
+  let cur := hl + izs
   let tfdf ← Tfdf.unpack (raw.drop cur) hdr.isTruncated n (some ft)
   let cur := cur + n
-  let (ocf, cur) :=
-    match hdr with
-    | .primary h => if h.ocf then (some (slice raw cur (cur + 4)), cur + 4) else (none, cur)
-    | .truncated _ => (none, cur)
-  let fecf :=
-    match p.fecf with
-    | some s => some (slice raw cur (cur + s))
-    | none => none
+  let ocf := if hdr.hasOcf then some (slice raw cur (cur + 4)) else none
+  let cur := if hdr.hasOcf then cur + 4 else cur
+  let fecf := p.fecf.map (fun s => slice raw cur (cur + s))
   pure ⟨hdr, tfdf, iz, ocf, fecf⟩
+
+/-- `TransferFrame.unpack(raw_frame, frame_type, frame_properties)` -/
+def Frame.unpack (raw : Bytes) (ft : FrameType) (p : FrameProps) : UPy Frame := do
+  let hdr ← Frame.unpackHeader raw ft p
+  Frame.unpackBody raw ft p hdr
 
 end SpVerif.Uslp
